@@ -114,6 +114,9 @@ class Problem(object):
             self.K = np.array([[self.k * 2 * self.h ** 2]])
             self.cscale = self.h
         self.fscale = float(np.abs(self.f0 + self.f1).max()) + 1e-300
+        # displacement-controlled part: internal force that itself depends on the load factor (what a prescribed shortening does in
+        # the shell models: calc_fint(c, inc) inserts inc * prescribed constants); the tangent is unaffected
+        self.g = rng.normal(size=self.n) * self.fscale * 10 ** rng.uniform(-2, 0) if rng.random() < 0.3 else None
 
     def _emb_v(self, v):
         out = np.zeros(self.N)
@@ -128,7 +131,7 @@ class Problem(object):
     def fext(self, lam):
         return self._emb_v(self.f0 + lam * self.f1)
 
-    def fint(self, cfull):
+    def fint(self, cfull, lam=0.0):
         c = np.asarray(cfull)[self.act]
         fam = self.family
         if fam in ('cubic_stiff', 'cubic_soft'):
@@ -141,6 +144,8 @@ class Problem(object):
             f = np.array([self.k * (x ** 3 - 3 * self.h * x ** 2 + 2 * self.h ** 2 * x)])
         else:
             f = self.K @ c
+        if self.g is not None:
+            f = f + lam * self.g
         return self._emb_v(f)
 
     def jac(self, cfull):
@@ -220,7 +225,7 @@ def make_analysis(pb, script, rng, counters, budget):
         counters['fint'] += 1
         if counters['fint'] > 60 * budget:
             raise StepBudgetExceeded('calc_fint called %d times' % counters['fint'])
-        return pb.fint(c)
+        return pb.fint(c, 0.0 if inc is None else inc)
 
     def calc_kT(c=None, inc=None, silent=True, **kw):
         counters['kT'] += 1
@@ -366,7 +371,7 @@ def run_case(rng, tier, idx):
     s['absTOL'] = float(pb.fscale * 10 ** rng.uniform(-9, -1))
     c = Case({'family': family, 'n': pb.n, 'nnull': nnull, 'settings': s, 'script': script})
     c.tag('family:' + family, 'script:' + script['kind'], 'ls' if s['line_search'] else 'nols',
-          'mNR' if s['modified_NR'] else 'fNR')
+          'mNR' if s['modified_NR'] else 'fNR', 'fint(inc)' if pb.g is not None else 'fint(c)')
     bound = step_bound(s)
     # each load step calls calc_fext once (+1 initial, +1 per restart from scratch)
     budget = 2 * bound + 10
@@ -416,7 +421,7 @@ def run_case(rng, tier, idx):
     # ---- boundary monitor: every reported pair re-judged with the pure callables
     c.expect('as many load factors as states', len(incs) == len(cs), '%d vs %d' % (len(incs), len(cs)))
     for lam, cc in zip(incs, cs):
-        R = pb.fext(lam) - pb.fint(cc)
+        R = pb.fext(lam) - pb.fint(cc, lam)
         c.hit('reported_states_judged')
         rmax = float(np.abs(R).max())
         c.expect('reported state is equilibrated: max|fext-fint| < absTOL', rmax < absTOL,
@@ -501,7 +506,7 @@ def run_case(rng, tier, idx):
         c.expect('linear problem reaches full load', ended_full, 'incs %r word %s' % (incs[-3:], word[-10:]), mechanism=mech)
         if ended_full:
             cl = np.zeros(pb.N)
-            cl[pb.act] = np.linalg.solve(pb.K, pb.f0 + pb.f1)
+            cl[pb.act] = np.linalg.solve(pb.K, pb.f0 + pb.f1 - (pb.g if pb.g is not None else 0.0))
             c.judge('linear problem returns the linear solution', np.abs(cs[-1] - cl).max(),
                     1e-6 * pb.cscale + absTOL / np.linalg.eigvalsh(pb.K).min() * 10)
     c.nontrivial = bool(incs) or ended_min
